@@ -2,7 +2,8 @@
 From Coq Require Import String.
 From Coq Require Import ZArith List Bool.
 From LasV Require Import Lib.Base Lib.Layout Gen.GenHeaderLayout Gen.GenFormatBits Gen.GenDims Model.Las Model.LasSpec
-  Model.LasFast Proofs.HeaderLen Proofs.VlrProofs Proofs.HeaderProofs Proofs.WriterProofs Proofs.RoundTripProofs Proofs.AppendProofs Proofs.LasFastProofs.
+  Model.LasFast Model.WriterAlias Model.DataAlias Proofs.HeaderLen Proofs.VlrProofs Proofs.HeaderProofs Proofs.WriterProofs Proofs.RoundTripProofs
+  Proofs.AppendProofs Proofs.LasFastProofs Proofs.WriterAliasProofs Proofs.DataAliasProofs.
 Import ListNotations.
 Open Scope list_scope.
 Open Scope Z_scope.
@@ -60,3 +61,71 @@ Print Assumptions C01_rewrite_idempotent.
 Theorem C01_executable_twin : forall src, read_file_f src = read_file src.
 Proof. exact read_file_f_eq. Qed.
 Print Assumptions C01_executable_twin.
+
+(* ---------------------------------------------------------------------------------------------------------------- *)
+(* LasData objects DERIVED from one another (Model/DataAlias.v): a LasData refers to a header object that refers to   *)
+(* a point format object; las[...] / convert / reading back take a deep copy                                         *)
+(* ---------------------------------------------------------------------------------------------------------------- *)
+
+(* whatever the history - selections of selections, conversions, edits of any object - no two LasData ever refer to the
+   same header object, no two headers to the same point format object *)
+Theorem C01_separation_invariant : forall ap ops f vl evl d recs, sep (fst (drun ap (world_of f vl evl d recs) ops)).
+Proof. exact reachable_sep. Qed.
+Print Assumptions C01_separation_invariant.
+
+(* an operation on one LasData (add_extra_dim on a selection, a header setter, ...) leaves every other LasData what it was:
+   header fields, VLRs, EVLRs, point format, records *)
+Theorem C01_operation_leaves_other_objects : forall ap w op j v, sep w -> target op <> Some j ->
+  view w j = Some v -> view (fst (dstep ap w op)) j = Some v.
+Proof. exact dstep_frame. Qed.
+Print Assumptions C01_operation_leaves_other_objects.
+
+(* hence the ORIGINAL still writes, after any history on the objects derived from it, the file it wrote before *)
+Theorem C01_write_unaffected_by_other_objects : forall ap ops w j v, sep w ->
+  (forall op, In op ops -> target op <> Some j) -> view w j = Some v ->
+  write_obj ap (fst (drun ap w ops)) j = write_obj ap w j.
+Proof. exact write_unaffected_by_other_objects. Qed.
+Print Assumptions C01_write_unaffected_by_other_objects.
+
+(* a derived object starts out with the VALUES of the one it was derived from *)
+Theorem C01_derived_object_is_a_copy : forall w i f v, view w i = Some v ->
+  view (derive w i f) (length (dw_objs w)) = Some (mkDV (dv_fields v) (dv_vlrs v) (dv_evlrs v) (dv_fmt v) (f (dv_recs v))).
+Proof. exact derived_object_is_a_copy. Qed.
+Print Assumptions C01_derived_object_is_a_copy.
+
+(* what any of these objects writes is the one-shot file of what it refers to: C01_roundtrip / C01_rewrite_idempotent apply *)
+Theorem C01_write_is_file_of : forall ap w j v, view w j = Some v ->
+  write_obj ap w j = file_of ap (hdr_of (dv_fields v) (dv_fmt v)) (dv_vlrs v) (fd_id (dv_fmt v)) (dv_recs v)
+                             (if aint (dv_fields v) "version.minor" >=? 4 then dv_evlrs v else []).
+Proof. exact write_is_file_of. Qed.
+Print Assumptions C01_write_is_file_of.
+
+(* the streaming route: whatever the caller does to the header it handed in while the writer is open, the file is the
+   one-shot file of the header as it was at open (Model/WriterAlias.v) - to which C01_roundtrip applies *)
+Theorem C01_stream_is_one_shot_of_header_at_open : forall ap, ap_ok ap -> forall c d st0 ops chunks evl st outs,
+  fmt_at c (cw_hfmt c) = Some d ->
+  sopen c = Ok st0 ->
+  resolve c d ops = chunk_ops chunks evl ->
+  plain_run ap st0 ops = (st, outs) ->
+  all_ok outs ->
+  file_of ap (hdr_of (cw_h c) d) (cw_vlrs c) (fd_id d) (concat chunks) evl = Ok (w_file (ss_w st)).
+Proof. exact session_writes_header_at_open. Qed.
+Print Assumptions C01_stream_is_one_shot_of_header_at_open.
+
+(* non-vacuity: a selection is taken, extended by an extra dimension and given another offset; the original writes the same
+   bytes as before, the selection writes records of the new size *)
+Definition ex1_h : assoc := [("version.major", VInt 1); ("version.minor", VInt 2); ("uuid", VBytes (repeat 0 16));
+  ("system_identifier", VBytes [79; 84]); ("generating_software", VBytes []); ("scales[0]", VInt 4607182418800017408)]%string.
+Definition ex1_ap (s o x : Z) : Z := if x <? 0 then 0 else x.
+Definition ex1_r (x : Z) : list Z := le_enc 4 x ++ repeat 1 16.
+Definition ex1_w : dworld := world_of ex1_h [] [] (mkFD 0 20 []) [ex1_r 5; ex1_r 9; ex1_r 2].
+Definition ex1_ops : list dop :=
+  [DWrite 0; DSelect 0 [2; 0]%nat;
+   DEdit 1 (mkDE [("offsets[0]", VInt 4611686018427387904)]%string None None (Some (mkFD 0 22 [7])) (Some [ex1_r 2 ++ [0; 0]; ex1_r 5 ++ [0; 0]]));
+   DWrite 0; DWrite 1].
+Example C01_alias_nonvacuous :
+  match snd (drun ex1_ap ex1_w ex1_ops) with
+  | [Ok a; Ok b; Ok c] => list_eqb a b && (len a =? 227 + 60) && (len c =? 227 + 44) && negb (list_eqb a c)
+  | _ => false
+  end = true.
+Proof. vm_compute. reflexivity. Qed.
